@@ -509,13 +509,35 @@ func replayNeutralUse(r *Run, fn *ssa.Function, ld *ssa.UnOp) (bool, string) {
 			nPaths++
 			var keys []string
 			var calls []*ssa.Call
-			for _, blk := range cp.blocks {
-				for _, in := range blk.Instrs {
-					if k, c := isStreamCall(in); k != "" {
-						keys = append(keys, k)
-						calls = append(calls, c)
+			var collect func(in ssa.Instruction, d int)
+			collect = func(in ssa.Instruction, d int) {
+				if k, c := isStreamCall(in); k != "" {
+					keys = append(keys, k)
+					calls = append(calls, c)
+					return
+				}
+				// a straight-line helper on the path contributes its own stream calls in order
+				if h := transparentCallee(in); h != nil && d < 4 {
+					for _, hb := range h.Blocks {
+						if len(hb.Succs) > 1 {
+							why = "the forced-stop path calls " + p.fnName(h) + ", which branches"
+							return
+						}
+					}
+					for _, hb := range h.Blocks {
+						for _, hin := range hb.Instrs {
+							collect(hin, d+1)
+						}
 					}
 				}
+			}
+			for _, blk := range cp.blocks {
+				for _, in := range blk.Instrs {
+					collect(in, 0)
+				}
+			}
+			if why != "" {
+				return
 			}
 			if len(calls) < 3 || keys[0] != "invoke:bitStream.beginGroup" || keys[1] != "invoke:bitStream.drawBits" || keys[2] != "invoke:bitStream.endGroup" {
 				why = "the forced-stop path makes the bitstream calls " + strings.Join(keys, ", ") + " (expected beginGroup, drawBits(0), endGroup first)"
